@@ -73,7 +73,7 @@ func (e *Env) globalValue(s *State, pk string, v *types.Var) Value {
 			e.ctx.errIDs++
 			e.ctx.axiom(eq(name, app(c.Name, intLit(int64(e.ctx.errIDs)))))
 		} else {
-			f := e.typeFacts(nil, val)
+			f := e.typeFacts(&State{alloc: "alloc!0"}, val)
 			if f != "true" {
 				e.ctx.axiom(f)
 			}
